@@ -65,7 +65,7 @@ func (cp *compiler) newNode(kind string) *mnode {
 	return n
 }
 
-func mtrue() *mexpr  { return &mexpr{op: "const", c: 1, bool: true} }
+func mtrue() *mexpr        { return &mexpr{op: "const", c: 1, bool: true} }
 func mnot(a *mexpr) *mexpr { return &mexpr{op: "not", a: a, bool: true} }
 func mand(a, b *mexpr) *mexpr {
 	if a.op == "const" && a.bool && a.c == 1 {
